@@ -29,9 +29,9 @@ LEVEL = "fault_enumeration"
 NPROC = int(os.environ.get("C19_NPROC", "0")) or common.NCPU      # C19_NPROC=4 on a shared box
 WRAP = ("-Wl,--wrap=malloc,--wrap=calloc,--wrap=realloc,--wrap=strdup",)
 
-QUICK = ["s_grow", "w_snappy", "w_groups_c", "r_fread", "b_mmap"]
+QUICK = ["s_grow", "w_snappy", "w_groups_c", "w_long", "r_fread", "b_mmap"]
 THOROUGH = QUICK + ["s_flat", "s_group", "s_long", "w_plain", "w_gzip", "w_lz4", "w_zstd", "w_file", "w_close", "w_cont",
-                    "w_long", "w_wide", "r_mmap", "r_buffer", "r_zstd", "r_lz4", "r_long", "r_cont", "b_fread", "b_buffer",
+                    "w_wide", "r_mmap", "r_buffer", "r_zstd", "r_lz4", "r_long", "r_cont", "b_fread", "b_buffer",
                     "b_cont", "b_par", "w_wide160", "r_wide160", "b_wide160", "w_snappy_c", "w_plain_n", "r_fread_n", "r_mmap_n",
                     "b_mmap_n", "b_buffer_n"]
 # only fault = none is judged: b_par is multi-threaded (the k-th request is not a fixed one); w_wide160 would
